@@ -132,4 +132,5 @@ Definition run_C08 (suite : str) (args : list str) : option str :=
   if streqb suite (bs "cap.parse") then Some (render_capmap (parse_cap (nth_arg8 0 args)))
   else if streqb suite (bs "cap.session") then Some (run_session args)
   else if streqb suite (bs "cap.ackremoval") then Some (run_session args)
+  else if streqb suite (bs "cap.enum") then Some (run_session args)
   else None.
